@@ -366,6 +366,20 @@ func (in *Interp) binop(op token.Token, x, y Value, t types.Type, xt types.Type)
 			return r
 		}
 	}
+	// an error value built by fmt.Errorf / errors.New in a package initialiser is opaque but certainly not nil
+	if op == token.EQL || op == token.NEQ {
+		ux, isUx := x.(Unknown)
+		uy, isUy := y.(Unknown)
+		_, xn := x.(NilV)
+		_, yn := y.(NilV)
+		isErr := func(u Unknown) bool { return u.why == "external fmt.Errorf" || u.why == "external errors.New" }
+		if (isUx && yn && isErr(ux)) || (isUy && xn && isErr(uy)) {
+			if op == token.EQL {
+				return Conc{big.NewInt(0)}
+			}
+			return Conc{big.NewInt(1)}
+		}
+	}
 	if _, ok := x.(Unknown); ok {
 		return x
 	}
@@ -1318,6 +1332,9 @@ func (in *Interp) call(fn *ssa.Function, args []Value, free []Value) Value {
 					next = b.Succs[1]
 				}
 			case *ssa.Panic:
+				if in.fl != nil {
+					panic(fpanicLeaf{}) // field-level mode: a leaf of its own (to be proved unreachable)
+				}
 				fail("reached panic(...) in %s", fn.Name())
 			case *ssa.DebugRef:
 			case *ssa.RunDefers:
@@ -1482,6 +1499,9 @@ func (in *Interp) doCall(f *frame, c *ssa.CallCommon) Value {
 		if !ok {
 			if in.inInit {
 				return Unknown{"invoke"}
+			}
+			if _, isU := in.get(f, c.Value).(Unknown); isU && c.Method.Name() == "Error" {
+				return StringV{"error"} // the text of an opaque error value (only ever used to build a panic message)
 			}
 			fail("interface method call %s on %T", c.Method.Name(), in.get(f, c.Value))
 		}
